@@ -8,7 +8,7 @@ open GIV
 
 /-! ### agreement with the x/tools reference on CR-free input -/
 
-theorem parseFiles_eq_ref {ls : List Line} (h : ∀ l ∈ ls, CR ∉ l.body) (name acc : Bytes) :
+theorem parseFiles_eq_ref [FLen] {ls : List Line} (h : ∀ l ∈ ls, CR ∉ l.body) (name acc : Bytes) :
     parseFiles ls name acc = some (refParseFiles ls name acc) := by
   induction ls generalizing name acc with
   | nil => rfl
@@ -21,7 +21,7 @@ theorem parseFiles_eq_ref {ls : List Line} (h : ∀ l ∈ ls, CR ∉ l.body) (na
       · rfl
     · exact ih hrest _ _
 
-theorem parseLines_eq_ref {ls : List Line} (h : ∀ l ∈ ls, CR ∉ l.body) (acc : Bytes) :
+theorem parseLines_eq_ref [FLen] {ls : List Line} (h : ∀ l ∈ ls, CR ∉ l.body) (acc : Bytes) :
     parseLines ls acc = some (refParseLines ls acc) := by
   induction ls generalizing acc with
   | nil => rfl
@@ -34,12 +34,12 @@ theorem parseLines_eq_ref {ls : List Line} (h : ∀ l ∈ ls, CR ∉ l.body) (ac
       · rfl
     · exact ih hrest _
 
-theorem parse_eq_ref {d : Bytes} (h : CR ∉ d) : parse d = some (refParse d) :=
+theorem parse_eq_ref [FLen] {d : Bytes} (h : CR ∉ d) : parse d = some (refParse d) :=
   parseLines_eq_ref (fun _ hl hx => h (mem_of_mem_splitLines hl _ hx)) []
 
 /-! ### NeedsQuote -/
 
-theorem findFM_name {ls : List Line} {acc : Bytes} {f : Found} (h : findFM ls acc = some f) :
+theorem findFM_name [FLen] {ls : List Line} {acc : Bytes} {f : Found} (h : findFM ls acc = some f) :
     f.name ≠ [] ↔ ∃ l ∈ ls, MarkerLine l := by
   induction ls generalizing acc with
   | nil =>
@@ -62,21 +62,21 @@ theorem findFM_name {ls : List Line} {acc : Bytes} {f : Found} (h : findFM ls ac
       have : ¬ MarkerLine l := not_markerLine_iff.mpr hn
       simp [this]
 
-theorem needsQuote_eq (d : Bytes) : needsQuote d = some (decide (HasMarkerLine d)) := by
+theorem needsQuote_eq [FLen] [FNQ] (d : Bytes) : needsQuote d = some (decide (HasMarkerLine d)) := by
   unfold needsQuote
   obtain ⟨f, hf⟩ := findFM_total (splitLines d) []
   rw [hf]
-  simp only [Option.map_some, Gen.Txtar.needsQuoteTestsName, if_true, Option.some.injEq]
+  simp only [Option.map_some, FNQ.eq, if_true, Option.some.injEq]
   exact decide_eq_decide.mpr (findFM_name hf)
 
-theorem needsQuote_false_iff (d : Bytes) : needsQuote d = some false ↔ ¬ HasMarkerLine d := by
+theorem needsQuote_false_iff [FLen] [FNQ] (d : Bytes) : needsQuote d = some false ↔ ¬ HasMarkerLine d := by
   rw [needsQuote_eq]; simp
 
 end GIV.Txtar
 namespace GIV.Txtar
 open GIV
 
-theorem hasMarkerLine_fixNL (d : Bytes) : HasMarkerLine (fixNL d) ↔ HasMarkerLine d := by
+theorem hasMarkerLine_fixNL [FLen] [FCR] [FLit] (d : Bytes) : HasMarkerLine (fixNL d) ↔ HasMarkerLine d := by
   unfold HasMarkerLine
   rw [splitLines_fixNL]
   constructor
@@ -86,12 +86,12 @@ theorem hasMarkerLine_fixNL (d : Bytes) : HasMarkerLine (fixNL d) ↔ HasMarkerL
   · rintro ⟨l, hl, hm⟩
     exact ⟨⟨l.body, true⟩, List.mem_map.mpr ⟨l, hl, rfl⟩, (markerLine_nl l.body l.nl).mp hm⟩
 
-theorem bodyOK_fixNL_of {d : Bytes} (h : ¬ HasMarkerLine d) : BodyOK (fixNL d) :=
+theorem bodyOK_fixNL_of [FLen] [FCR] [FLit] {d : Bytes} (h : ¬ HasMarkerLine d) : BodyOK (fixNL d) :=
   ⟨fixNL_ends d, fun hm => h ((hasMarkerLine_fixNL d).mp hm)⟩
 
 /-- Storing `d` as the body of a single file parses back to that file (with `fixNL d`) iff `d`
 has no marker line. -/
-theorem parse_format_single {n : Bytes} (hn : NameOK n) (d : Bytes) :
+theorem parse_format_single [FLen] [FCR] [FLit] {n : Bytes} (hn : NameOK n) (d : Bytes) :
     parse (format ⟨[], [⟨n, d⟩]⟩) = some ⟨[], [⟨n, fixNL d⟩]⟩ ↔ ¬ HasMarkerLine d := by
   have hfmt : format ⟨[], [⟨n, d⟩]⟩ = format ⟨[], [⟨n, fixNL d⟩]⟩ := by
     simp [format, fixNL_idem]
@@ -195,7 +195,7 @@ theorem splitLines_quote {d q : Bytes} (h : quote d = .ok q) :
     rw [hq]
     exact ⟨splitLines_joinLines (LinesOK_of_allNL hbody' hall'), joinLines_ends hall'⟩
 
-theorem quote_bodyOK {d q : Bytes} (h : quote d = .ok q) : BodyOK q := by
+theorem quote_bodyOK [FLen] [FLit] {d q : Bytes} (h : quote d = .ok q) : BodyOK q := by
   obtain ⟨h1, h2⟩ := splitLines_quote h
   refine ⟨h2, ?_⟩
   rintro ⟨l, hl, hm⟩
@@ -203,10 +203,10 @@ theorem quote_bodyOK {d q : Bytes} (h : quote d = .ok q) : BodyOK q := by
   obtain ⟨l0, _, rfl⟩ := List.mem_map.mp hl
   exact (not_markerLine_iff.mpr (markerName_gt l0.body l0.nl)) hm
 
-theorem quote_needsQuote {d q : Bytes} (h : quote d = .ok q) : needsQuote q = some false :=
+theorem quote_needsQuote [FLen] [FLit] [FNQ] {d q : Bytes} (h : quote d = .ok q) : needsQuote q = some false :=
   (needsQuote_false_iff q).mpr (quote_bodyOK h).2
 
-theorem quote_survives_gen {d q : Bytes} (h : quote d = .ok q) {c n : Bytes} (hc : BodyOK c)
+theorem quote_survives_gen [FLen] [FLit] {d q : Bytes} (h : quote d = .ok q) {c n : Bytes} (hc : BodyOK c)
     (hn : NameOK n) : parse (format ⟨c, [⟨n, q⟩]⟩) = some ⟨c, [⟨n, q⟩]⟩ := by
   apply parse_format_of_wf
   refine ⟨hc, ?_⟩
